@@ -20,6 +20,9 @@
        invariants: every augmented row [m | e] satisfies e.A0 = m, and the first c columns are unit columns), hence
        A_inv.(A.b) = b for every b: beta = A_inv.X'y is THE solution of the normal equations (lambda*I + X'X) b = X'y
        whenever they have one (lin_history_beta_is_the_ridge_solution) - "exact per-arm ridge regression".
+     * scale=True (single fit per arm): the arm's scaler holds the column means and population standard deviations of the arm's OWN rows
+       (0 / 1 for a column whose deviation does not exceed 1e-6), the regression is the ridge regression of the standardised rows, and a
+       query is standardised with the arm's own scaler before x.beta / the LinUCB bonus are taken.
      * EXISTENCE (ordered-field laws NumLaws; RidgeExists.v, LinRidge.v): the elimination never reports "singular" on a matrix
        with trivial kernel (a third loop invariant: the left block annihilates only what A0 annihilates; when the best pivot of
        column c is 0 an explicit non-zero kernel vector is exhibited), and lambda*I + X'X has a trivial kernel for lambda > 0
@@ -275,6 +278,54 @@ Theorem C02_beta_solves_the_normal_equations :
   vadd N (zeros N d) (xty N d X y).
 Proof. exact @lin_history_beta_solves_the_normal_equations. Qed.
 Print Assumptions C02_beta_solves_the_normal_equations.
+
+Theorem C02_scaled_fit_is_the_ridge_regression_of_the_standardised_rows :
+  forall (R G : Type) (N : Num R) (d : nat) (m m' : (@ridge R G)) (x : (@mat R)) (y : (@vec R)),
+  r_scaler m = Some None ->
+  ridge_fit N d m x y = Some m' ->
+  let sc := scaler_fit N d x in
+  let z := scaler_transform N sc x in
+  r_scaler m' = Some (Some sc) /\
+  r_A m' = madd N (r_A m) (xtx N d z) /\
+  r_Xty m' = vadd N (r_Xty m) (xty N d z y) /\
+  inverse N d (r_A m') = Some (r_Ainv m') /\ r_beta m' = mat_vec N (r_Ainv m') (r_Xty m').
+Proof. exact @ridge_fit_scaled_normal_equations. Qed.
+Print Assumptions C02_scaled_fit_is_the_ridge_regression_of_the_standardised_rows.
+
+Theorem C02_scaler_holds_the_arms_own_column_statistics :
+  forall (R : Type) (N : Num R) (d : nat) (x : (@mat R)),
+  let cols := transpose N d x in
+  sc_mean (scaler_fit N d x) = map (col_mean N) cols /\
+  sc_scale (scaler_fit N d x) = map (fun c : (@vec R) => snd (fix_scale N (col_var N c (col_mean N c)))) cols.
+Proof. exact @scaler_fit_spec. Qed.
+Print Assumptions C02_scaler_holds_the_arms_own_column_statistics.
+
+Theorem C02_lingreedy_expectation_with_the_arms_own_scaler :
+  forall (R A G : Type) (N : Num R) (RG : RngOps R G) (s : (@lin R A G)) (m : (@ridge R G)) 
+    (sc : (@scaler R)) (g : G) (x : (@mat R)),
+  l_kind s = RRidge ->
+  r_scaler m = Some (Some sc) ->
+  ridge_predict N RG s m g x =
+  (map (fun row : (@vec R) => dot N row (r_beta m)) (scaler_transform N sc x), m, g).
+Proof. exact @lingreedy_expectation_scaled. Qed.
+Print Assumptions C02_lingreedy_expectation_with_the_arms_own_scaler.
+
+Theorem C02_linucb_expectation_with_the_arms_own_scaler :
+  forall (R A G : Type) (N : Num R) (RG : RngOps R G) (s : (@lin R A G)) (m : (@ridge R G)) 
+    (sc : (@scaler R)) (g : G) (x : (@mat R)),
+  l_kind s = RUcb ->
+  r_scaler m = Some (Some sc) ->
+  ridge_predict N RG s m g x =
+  (map
+     (fun row : (@vec R) =>
+      add N (dot N row (r_beta m))
+        (mul N (l_alpha s)
+           (sqrt N
+              (nsum N
+                 (map2 (mul N) (map (fun c : (@vec R) => dot N row c) (transpose N (length row) (r_Ainv m)))
+                    row))))) (scaler_transform N sc x), m, g).
+Proof. exact @linucb_expectation_scaled. Qed.
+Print Assumptions C02_linucb_expectation_with_the_arms_own_scaler.
 
 Theorem C02_lingreedy_expectation :
   forall (R A G : Type) (N : Num R) (RG : RngOps R G) (s : (@lin R A G)) (m : (@ridge R G)) (g : G) (x : (@mat R)),
